@@ -35,7 +35,8 @@ def all_fro(F):
     t = lib().tensor
     Aq = q_from_float(F.copy())
     comps = [np.ascontiguousarray(F[..., c]) for c in range(4)]
-    sp = u.SparseQuaternionMatrix(*[sparse.csr_matrix(c) for c in comps], F.shape[:2])
+    from ..qlib import sp_quat
+    sp = sp_quat(F)
     return {
         "matrix_norm(None)": u.matrix_norm(Aq), "matrix_norm('fro')": u.matrix_norm(Aq, "fro"),
         "matrix_norm('F')": u.matrix_norm(Aq, "F"), "quat_frobenius_norm.dense": u.quat_frobenius_norm(Aq),
